@@ -209,9 +209,9 @@ func (t *TopKRedis) Import(data []byte, withNewKey bool) error {
 	} else {
 		t.heapKey = topk.HeapKey
 	}
-	frequencyMap := make(map[string]uint)
+	frequencyMap := make(map[string]uint64)
 	for i := range topk.Heap {
-		frequencyMap[topk.Heap[i].Value]++
+		frequencyMap[topk.Heap[i].Value] = topk.Heap[i].Frequency
 	}
 	err = t.importHeap(t.heapKey, frequencyMap)
 	if err != nil {
@@ -227,7 +227,7 @@ func (t *TopKRedis) Import(data []byte, withNewKey bool) error {
 	return nil
 }
 
-func (t *TopKRedis) importHeap(key string, frequencyMap map[string]uint) error {
+func (t *TopKRedis) importHeap(key string, frequencyMap map[string]uint64) error {
 	args := make([]interface{}, 2*len(frequencyMap))
 	i := 0
 	for key, val := range frequencyMap {
